@@ -132,8 +132,9 @@ def emit_macro(d, world, acts, side):
     kind = d.choice(MACROS)
     n0 = len(acts)
     if kind in ("takeover", "takeover_keep") and len(files) >= 2 and news:
-        x = d.choice(files)
-        y = d.choice([f for f in files if f != x])
+        recent = [f for f in getattr(world, "recent", []) if f in files]
+        y = d.choice(recent) if recent and d.bool() else d.choice(files)    # the file that takes the name over
+        x = d.choice([f for f in files if f != y])
         n = d.choice(news)
         if _try(world, acts, side, ("rename", x, n)) and _try(world, acts, side, ("rename", y, x)) and kind == "takeover":
             _try(world, acts, side, ("delete", n))
@@ -158,6 +159,35 @@ def emit_macro(d, world, acts, side):
         if _try(world, acts, side, ("create", n, world.new_content())):
             _try(world, acts, side, ("delete", n))
     return len(acts) - n0
+
+
+def step_act(d, world, who):
+    """One engine step; with the case's tempo > 0 some virtual time passes before it (production loops sleep between
+    iterations; punted entries only become eligible again as time passes)."""
+    world.note_step(who)
+    tempo = getattr(world, "tempo", 0)
+    if tempo and d.bool():
+        return ["step", who, tempo]
+    return ["step", who]
+
+
+def emit_starve(d, world, acts, side):
+    """Starved event loop: some ops on `side`, ONE intake step of that side, more ops on the same objects (locality
+    bias), then a long run of steps in which that side's event loop never runs (sync steps and the other side's
+    intake only) -- the engine works from half the story plus whatever it polls itself.  Returns ops emitted."""
+    n0 = len([a for a in acts if a[0] == "u"])
+    for _ in range(d.int(1, 2)):
+        emit_user_op(d, world, acts, side)
+    acts.append(step_act(d, world, "EL" if side == 0 else "ER"))
+    for _ in range(d.int(1, 3)):
+        if d.chance(1, 2):
+            emit_macro(d, world, acts, side)
+        else:
+            emit_user_op(d, world, acts, side)
+    other = "ER" if side == 0 else "EL"
+    for _ in range(d.int(3, 16)):
+        acts.append(step_act(d, world, d.choice(("S", "S", "S", other))))
+    return len([a for a in acts if a[0] == "u"]) - n0
 
 
 def emit_base(d, world, acts, base_side):
@@ -250,6 +280,7 @@ def gen_history(d, cfg, *, sides=(0, 1), n_ops=(3, 8), hazards=None, with_base=N
     world = World(path_style=(cfg["L"] == "path", cfg["R"] == "path"), hazards=hazards)
     if world_init:
         world_init(world)
+    world.tempo = d.choice((0, 0.02, 0.3))
     acts = []
     if with_base is None:
         with_base = d.chance(4, 5)
@@ -263,7 +294,10 @@ def gen_history(d, cfg, *, sides=(0, 1), n_ops=(3, 8), hazards=None, with_base=N
         k = d.weighted([x for x in (("op", w_op), ("step", w_step), ("settle", w_settle), ("gadget", w_gadget),
                                      ("extra", w_extra), ("macro", w_macro)) if x[1]])
         if k == "macro":
-            done += emit_macro(d, world, acts, d.choice(sides))
+            if d.chance(1, 3):
+                done += emit_starve(d, world, acts, d.choice(sides))
+            else:
+                done += emit_macro(d, world, acts, d.choice(sides))
         elif k == "extra":
             extra(d, world, acts)
         elif k == "gadget":
@@ -276,7 +310,14 @@ def gen_history(d, cfg, *, sides=(0, 1), n_ops=(3, 8), hazards=None, with_base=N
                 acts.append(["settle"])
                 world.settle()
         elif k == "step":
-            acts.append(["step", d.choice(("EL", "ER", "S"))])
+            if d.chance(1, 4):
+                # starvation burst: for a while only a subset of the three loops gets to run (a slow event thread,
+                # a busy sync thread); iid single steps almost never produce ten steps in a row without EL
+                sub = d.choice((("S",), ("S",), ("S", "EL"), ("S", "ER"), ("EL",), ("ER",), ("EL", "ER")))
+                for _ in range(d.int(3, 14)):
+                    acts.append(step_act(d, world, d.choice(sub)))
+            else:
+                acts.append(step_act(d, world, d.choice(("EL", "ER", "S"))))
         else:
             acts.append(["settle"])
             world.settle()
@@ -322,6 +363,8 @@ def envelope_ok(trace, hazards=None, sides=(0, 1), world_init=None):
                     world.apply_gadget_op(sd, *op)
                 except ModelInvalid:
                     return False
+        elif a[0] == "step":
+            world.note_step(a[1])
         elif a[0] == "settle":
             world.settle()
     return True
